@@ -526,10 +526,18 @@ def corpus_item(item):
         check(tree, "hash")
         if not (tree == tree.copy()):
             st["viol"].append({"key": "c08:equality:copy:parsed-tree", "what": "tree != tree.copy()", "input": dict(inp0, op="copy")})
+        # equal exactly when structurally equal, between the nodes of one statement: same class + same hash <=> same canon
+        by_hash = {}
+        for n, *_r in nodes(tree):
+            c = canon(n)
+            prev = by_hash.setdefault((type(n), hash(n)), (c, n))
+            if prev[0] != c and n == prev[1]:
+                st["viol"].append({"key": f"c08:equality:corpus:different-structure-equal:{type(n).__name__}",
+                                   "what": f"{prev[1].sql()!r} == {n.sql()!r} although their structure / leaf values differ", "input": dict(inp0, op="eq")})
         for d in targets:
             try:
                 tree.sql(dialect=d or None)
-            except SqlglotError as e:
+            except Exception as e:  # an exception raised inside sqlglot is data here (crashes belong to other properties)
                 skip(f"sql:{type(e).__name__}")
                 continue
             check(tree, f"sql")
@@ -668,6 +676,9 @@ def _corpus_plan(tier):
     for sql in exprs:
         for prehash in (False, True):
             items.append((sql, "", True, prehash, []))
+    for sql, read in PART_B_DIALECT:
+        for prehash in (False, True):
+            items.append((sql, read, False, prehash, [read, ""] if not prehash else []))
     return items
 
 
@@ -691,6 +702,22 @@ PART_B_EXTRA = [
     "WITH y AS (SELECT a FROM t), z AS (SELECT b FROM t) SELECT b FROM z",
     "WITH y AS (SELECT a FROM t) SELECT a FROM (SELECT a, b, c FROM t) AS s",
     "SELECT a FROM (SELECT a, b, COUNT(*) AS n FROM t GROUP BY 1, 2) AS s",
+]
+
+
+# dialect-specific statements whose parser methods assemble a node from separately parsed pieces (parameter modes, two property
+# sections of one CREATE, typed lambda parameters substituted into the body, partition bounds)
+PART_B_DIALECT = [
+    ("CREATE FUNCTION f(IN a INT NOT NULL, OUT b TEXT, INOUT c INT DEFAULT 1) RETURNS INT AS 'select 1'", "postgres"),
+    ("CREATE TABLE t WITH (fillfactor=70) AS SELECT 1 AS a WITH NO DATA", "postgres"),
+    ("CREATE TABLE t WITH (format='x') AS SELECT 1 AS a WITH NO DATA", "presto"),
+    ("CREATE TABLE t, NO FALLBACK AS (SELECT 1 AS a) WITH DATA PRIMARY INDEX (a)", "teradata"),
+    ("SELECT FILTER(arr, x INT -> x > 1 AND x < 5)", "snowflake"),
+    ("SELECT REDUCE(arr, 0, (x INT, y INT) -> x + y + x)", "snowflake"),
+    ("CREATE TABLE t (c1 INT, c2 DATE) PARTITION BY RANGE (`c2`) (PARTITION `p1` VALUES [('2017-01-01'), ('2017-02-01')), PARTITION `o` VALUES LESS THAN (MAXVALUE))", "doris"),
+    ("SELECT json.a.b[].c, json.a.b[][]", "clickhouse"),
+    ("SELECT IDENTIFIER('f')(1, 2), IDENTIFIER('g')()", "snowflake"),
+    ("SELECT JSON_EXTRACT(x, '$[-1]'), JSON_EXTRACT(x, '$[-2]') FROM t FOR UPDATE", "mysql"),
 ]
 
 
